@@ -1485,3 +1485,36 @@ func returnLeaves(fn *ssa.Function, i int) []retLeaf {
 	})
 	return out
 }
+
+// nilTest is one branch on `v == nil` / `v != nil` (either operand order): the successors on which v is non-nil and nil.
+type nilTest struct {
+	iff            *ssa.If
+	nonNil, isNil *ssa.BasicBlock
+}
+
+// nilTests lists the branches that test v against nil, whichever way the comparison is written.
+func nilTests(v ssa.Value) []nilTest {
+	var out []nilTest
+	refs := v.Referrers()
+	if refs == nil {
+		return nil
+	}
+	for _, r := range *refs {
+		b, ok := r.(*ssa.BinOp)
+		if !ok || (b.Op != token.NEQ && b.Op != token.EQL) || !(isNilConst(b.X) || isNilConst(b.Y)) {
+			continue
+		}
+		for _, rr := range *b.Referrers() {
+			iff, ok := rr.(*ssa.If)
+			if !ok || len(iff.Block().Succs) != 2 {
+				continue
+			}
+			t := nilTest{iff: iff, nonNil: iff.Block().Succs[0], isNil: iff.Block().Succs[1]}
+			if b.Op == token.EQL {
+				t.nonNil, t.isNil = t.isNil, t.nonNil
+			}
+			out = append(out, t)
+		}
+	}
+	return out
+}
